@@ -849,6 +849,10 @@ class Analyzer:
         if not isinstance(v, ArrRef):
             raise Unsupported(f'subscript of {type(v).__name__}')
         t = self.T(v)
+        if isinstance(i, tuple) and t.kind == '1d' and len(i) == 2 and isinstance(i[0], slice) and i[1] is None \
+                and i[0].start is None and i[0].stop is None and i[0].step is None:
+            # x[:, None]: a column vector aligned with the rows (row j holds x[j])
+            return self.new_arr(ArrT(t.len, t.lag, t.base, 0, None, 'col', view_of=v.id))
         if isinstance(i, tuple):
             if t.kind not in ('2d', 'win') or len(i) != 2:
                 raise Unsupported('tuple index')
@@ -1830,7 +1834,7 @@ class Analyzer:
         kind, cols = '1d', None
         if kinds == {'1d'}:
             pass
-        elif kinds <= {'win', '1d'} and all(t.lag is None for _, t in arrs if t.kind == '1d'):
+        elif 'win' in kinds and kinds <= {'win', '1d', 'col'} and all(t.lag is None for _, t in arrs if t.kind == '1d'):
             kind = 'win'
             cols = next(t.cols for _, t in arrs if t.kind == 'win')
         elif kinds == {'2d'}:
@@ -1850,6 +1854,11 @@ class Analyzer:
             if t.lag is not None:
                 lag = t.lag if lag is None else lmax(lag, t.lag)
         base = lmax(*[t.base for _, t in arrs], *[level_of(s) for s in scal])
+        rowlag = None
+        if kind == 'win':
+            # W[j, t] op col[j]: the column's lag counts per row, not per position inside the window
+            rowlag = lmax(*[t.rowlag for t in main], *[t.lag for _, t in arrs if t.kind == 'col' and t.lag is not None])
+            base = lmax(base, *[N for _, t in arrs if t.kind == 'col' and t.lag is None and False])
         fill, cupto = None, 0
         use_nan = arith if nanprop is None else nanprop
         if use_nan:
@@ -1860,7 +1869,7 @@ class Analyzer:
                     fill = t.fill
         if fill is None and len(main) == 1 and not scal and main[0].fill is not None and use_nan and isinstance(main[0].fill, (int, float)) and main[0].fill == 0 and False:
             pass
-        return self.new_arr(ArrT(ln, lag, base, cupto, fill, kind, cols, isbool=isbool))
+        return self.new_arr(ArrT(ln, lag, base, cupto, fill, kind, cols, isbool=isbool, rowlag=rowlag if kind == 'win' else None))
 
     def np_dot(self, a, b):
         from . import causal_np
